@@ -244,7 +244,7 @@ func genScenarioC08(t *Tape, thorough bool) *Scenario {
 		o.Prof.BigChance, o.Prof.BigMax = 5, 270000
 		o.MaxUnits = 5
 	}
-	o.TableIDReuse = cs.Chance(1, 2) // tables re-announced with other column types, ids taken over
+	o.TableIDReuse = cs.Chance(1, 2)     // tables re-announced with other column types, ids taken over
 	o.WideTables, o.WideChance = true, 6 // tables beyond 64 columns, some with all their by-reference columns behind the 64th
 	h := genHistoryFor(t, hs, &o)
 	sc := &Scenario{Hist: h, Start: pickStart(cs, h, true), ServerID: 1001}
